@@ -261,8 +261,11 @@ func filterMethodCall(blockContext antlr.Tree) {
 }
 
 func buildRestApiWithParameters(ctx *parser.MethodDeclarationContext) {
-	parameterList := ctx.FormalParameters().GetChild(1).(*parser.FormalParameterListContext)
-	formalParameter := parameterList.AllFormalParameter()
+	// child 1 is a receiver parameter (`Type this`) when one is declared: ask for the list itself
+	var formalParameter []parser.IFormalParameterContext
+	if parametersCtx, ok := ctx.FormalParameters().(*parser.FormalParametersContext); ok && parametersCtx.FormalParameterList() != nil {
+		formalParameter = parametersCtx.FormalParameterList().(*parser.FormalParameterListContext).AllFormalParameter()
+	}
 	for _, param := range formalParameter {
 		paramContext := param.(*parser.FormalParameterContext)
 
